@@ -102,7 +102,7 @@ func contentClass(s string) string {
 }
 
 func checkC17(c *Check) {
-	c.Rule = "model file system (path -> bytes) versus the real sandbox after the script: (1) single-store cells: 33 path spellings x literal/run-time path x contents (C08 payloads, every printable character, newline/tab, empty) x literal/run-time content x top level / inside a function x literal / computed append flag, each cell doing exists, write, read, append, overwrite, append; (2) nested operations: path, data or flag expressions that call functions performing writes/reads themselves; (3) composite programs: random histories over three random path spellings and four random contents with every operation placed directly, in a branch, in a loop body or behind a function; (4) histories of 1-12 write/append/read/exists operations over three paths (all histories up to length 2 or 3, random beyond); oracle = reference stdout plus a recursive snapshot of the sandbox (every path, every byte; a write that touches another path shows as a stray or missing file). Non-trivial = at least one write executed; distinct = SHA-256 of source + files"
+	c.Rule = "model file system (path -> bytes) versus the real sandbox after the script: (1) single-store cells: 53 path spellings (20 of them the operator words of test / [) x literal/run-time path x contents (C08 payloads, every printable character, newline/tab, empty) x literal/run-time content x top level / inside a function x literal / computed append flag, each cell doing exists, write, read, append, overwrite, append; (2) nested operations: path, data or flag expressions that call functions performing writes/reads themselves, writes whose data is the content of their own target, copies between files; (3) composite programs: random histories over three random path spellings and four random contents with every operation placed directly, in a branch, in a loop body or behind a function; (4) histories of 1-12 write/append/read/exists operations over three paths (all histories up to length 2 or 3, random beyond); oracle = reference stdout plus a recursive snapshot of the sandbox (every path, every byte; a write that touches another path shows as a stray or missing file). Non-trivial = at least one write executed; distinct = SHA-256 of source + files"
 	c.Assumptions = []string{"literal spellings of the characters \" $ ` \\ are not used (recorded under C08); such values arrive through read() from pre-created files", "Batch helpers not claimed"}
 	runProbes(c, bashProbeJudge)
 	nontrivial := func(r Result) bool { return r.Features["write"] > 0 }
